@@ -9,11 +9,13 @@ package socks5
 // every socket read / write is preceded by a deadline of now + the configured data timeout, and is not attempted
 // when the deadline could not be set
 //@ func (*socksConn).Read
+//@   sig c, p
 //@   props C09 C08 C01 C02 C12 C14
 //@   observe time.Now, (time.Time).Add, SetReadDeadline, Read
 //@   entry row nodl: [call time.Now() as (now) ; call Add(now, c.timeout) as (dl) ; call SetReadDeadline(c.conn, dl) as (e)] when e != nil && ret1 == e && ret0 == 0 -> exit
 //@   entry row read: [call time.Now() as (now) ; call Add(now, c.timeout) as (dl) ; call SetReadDeadline(c.conn, dl) as (e) ; call Read(c.conn, p) as (n, e2)] when e == nil && ret0 == n && ret1 == e2 -> exit
 //@ func (*socksConn).Write
+//@   sig c, p
 //@   props C09 C08 C01 C02 C12 C14
 //@   observe time.Now, (time.Time).Add, SetWriteDeadline, Write
 //@   entry row nodl:  [call time.Now() as (now) ; call Add(now, c.timeout) as (dl) ; call SetWriteDeadline(c.conn, dl) as (e)] when e != nil && ret1 == e && ret0 == 0 -> exit
@@ -21,10 +23,12 @@ package socks5
 
 // greeting: one Write of VER, NMETHODS, METHODS...
 //@ func NewMethodRequest
+//@   sig version, methods
 //@   props C09 C08 C01 C02 C12 C14
 //@   modifies nothing
 //@   ensures ret != nil && ret.Ver == version && ret.NMethods == len(methods) % 256 && ret.Methods == methods
 //@ func (*MethodRequest).WriteTo
+//@   sig r, w
 //@   props C09 C08 C01 C02 C12 C14
 //@   observe Write
 //@   requires r.NMethods == len(r.Methods)
@@ -37,6 +41,7 @@ package socks5
 //@   params rd, order, data
 //@   modifies asptr(data, MethodReply).Ver, asptr(data, MethodReply).Method
 //@ func (*MethodReply).ReadFrom
+//@   sig r, in
 //@   props C09 C08 C01 C02 C12 C14
 //@   observe binary.Read
 //@   modifies r.Ver, r.Method
@@ -58,6 +63,7 @@ package socks5
 //@   ensures ret1 == nil ==> ret0 != nil
 //@   ensures ret1 == nil && network == "tcp" ==> isptr(ret0, net.TCPConn)
 //@ func (*Scanner).Scan
+//@   sig s, ctx, r
 //@   props C09 C08 C01 C02 C12 C14
 //@   observe fmt.Sprintf, DialContext, SetLinger, NewMethodRequest, WriteTo, ReadFrom, Close, String
 //@   entry row dialfail: [call fmt.Sprintf("%s:%d", bind_a) as (addr) ; call DialContext(s.dialer, ctx, "tcp", addr) as (conn, e)]
@@ -86,45 +92,54 @@ package socks5
 // C09: constructor: default timeouts first, then the options in order; the dial option bounds the connect, the data
 // option the reads and writes
 //@ func WithDialTimeout$1
+//@   sig s
 //@   props C09 C08 C01 C02 C12 C14
 //@   modifies s.dialer.Timeout
 //@   ensures s.dialer.Timeout == timeout
 //@ func WithDataTimeout$1
+//@   sig s
 //@   props C09 C08 C01 C02 C12 C14
 //@   modifies s.dataTimeout
 //@   ensures s.dataTimeout == timeout
 //@ func NewScanner
+//@   sig opts
 //@   props C09 C08 C01 C02 C12 C14
-//@   observe o
+//@   observe ScannerOption
 //@   entry row init:  [] when s.dialer != nil && fresh(s.dialer) -> loop 0
-//@   loop 0 row apply: [call o(s)] -> continue
+//@   loop 0 row apply: [call ScannerOption(s)] -> continue
 //@   loop 0 row done:  [] when ret == s -> exit
 
 // C14: the JSON form of a result is exactly what encoding/json produces for a copy of the record (all tagged fields,
 // library escaping), with no post-processing
 //@ func (*ScanResult).MarshalJSON
+//@   sig r
 //@   props C14
 //@   observe json.Marshal
 //@   entry row marshal: [call json.Marshal(bind_x) as (b, e)] when ret0 == b && ret1 == e -> exit
 
 // plain-text form of a record: printing never panics, whatever the scanned host put into the record (C09 C08)
 //@ func (*ScanResult).String
+//@   sig r
 //@   props C09 C08
 
 // option constructors: each returns its own option closure over exactly its argument (verified here, inlined at call sites)
 //@ func WithDataTimeout
+//@   sig timeout
 //@   inline
 //@   props C09 C08 C01 C02 C12 C14
 //@   ensures closureof(ret, "WithDataTimeout$1") && capt(ret, "timeout") == timeout
 //@ func WithDialTimeout
+//@   sig timeout
 //@   inline
 //@   props C09 C08 C01 C02 C12 C14
 //@   ensures closureof(ret, "WithDialTimeout$1") && capt(ret, "timeout") == timeout
 
 // message lengths: the greeting is 2 + NMETHODS bytes, the reply 2
 //@ func (*MethodRequest).Len
+//@   sig r
 //@   props C09 C08 C01 C02 C12 C14
 //@   ensures ret == 2 + r.NMethods && 2 <= ret && ret <= 257
 //@ func (*MethodReply).Len
+//@   sig arg0
 //@   props C09 C08 C01 C02 C12 C14
 //@   ensures ret == 2
